@@ -619,6 +619,21 @@ def evaluate(ck, cases, pool, direct_only=False):
                 range_req.append("color inrange " + " ".join(f"{x.numerator}/{x.denominator}" for x in pc))
             range_idx.append(i)
     range_ans = dict(zip(range_idx, driver_par(range_req))) if range_req else {}
+    # (c) `sameColor` (Lean: grass's `==` as modelled + identical compressed print) on the two colours grass printed
+    first_slot = {}
+    for i, (ci, k) in enumerate(owner):
+        first_slot.setdefault(ci, i)
+    same_req, same_idx = [], []
+    for ci, c in enumerate(cases):
+        if not c.law:
+            continue
+        b = first_slot[ci]
+        if impl[b][0] == "val" and impl[b + 1][0] == "val":
+            p1, p2 = parse_printed_color(impl[b][1]), parse_printed_color(impl[b + 1][1])
+            if p1 and p2:
+                same_req.append("color same " + " ".join(f"{x.numerator}/{x.denominator}" for x in p1 + p2))
+                same_idx.append(ci)
+    same_ans = dict(zip(same_idx, driver_par(same_req))) if same_req else {}
     failing = []
     first = {}
     for i, (ci, k) in enumerate(owner):
@@ -669,6 +684,8 @@ def evaluate(ck, cases, pool, direct_only=False):
                 problems.append(f"grass says {c.text()} is {obs[2][1]} (lhs prints {obs[0][1]}, rhs prints {obs[1][1]})")
             elif obs[0][1] != obs[1][1]:
                 problems.append(f"equal colours print differently in compressed mode: {obs[0][1]} vs {obs[1][1]}")
+            elif same_ans.get(ci) != "ok 1":
+                problems.append(f"Lean sameColor on grass's printed colours {obs[0][1]} / {obs[1][1]}: {same_ans.get(ci)}")
         elif c.law and not any(m.startswith("err") for m in mods):
             problems.append(f"law {c.law} could not be evaluated on grass: {[str(o)[:80] for o in obs]}")
         if c.expect:
@@ -751,6 +768,9 @@ def run(tier, seed):
         "when it applies a function/conversion or compares two spellings.")
     ck.assumptions = [
         "model arithmetic is exact (Rat) where grass uses f64; printed numbers are compared as exact rationals within 1e-10",
+        "where the exact value of a channel lies within 1e-8 of a rounding threshold (X.5) the driver marks the case `risky` "
+        "and model and grass are compared channel by channel within one unit instead of byte for byte (f64 error of "
+        "as_hsla's `+360, *60` reaches ~1e-11, the width of fuzzy_round's tolerance)",
         "printed colours are read back with the committed CSS reference table, not with grass's table",
     ]
     ok_tr, info = translator_step(ck)
@@ -768,8 +788,13 @@ def run(tier, seed):
     cases = corpus_cases() + named_cases(rng) + short_hex_cases(rng, tier)
     cases += function_cases(rng, 120 if quick else 2500)
     cases += law_cases(rng, 150 if quick else 3000)
+    enlarge = quick and bool(getattr(ck, "changed", None))
+    if enlarge:
+        # the modelled Rust files differ from the snapshot the model was validated against: search wider
+        log(f"[C15] modelled sources changed ({ck.changed}): enlarging the search")
+        cases += law_cases(rng, 450) + function_cases(rng, 250)
     failing = evaluate(ck, cases, pool)
-    planes = rng.sample(range(256), 6) + [0, 255] if quick else range(256)
+    planes = rng.sample(range(256), 40 if enlarge else 6) + [0, 255] if quick else range(256)
     failing += run_cube(ck, pool, set(planes), 1 if quick else 4)
     if (not ck.proof["ok"] or ck.cov["model_disagreements"]) and not failing and quick:
         log("[C15] proof or correspondence broken: enlarging the search")
